@@ -19,7 +19,6 @@ package ssa
 import (
 	"go/token"
 	"go/types"
-	"unsafe"
 
 	"github.com/xgo-dev/llvm"
 )
@@ -315,7 +314,7 @@ func (b Builder) Defer(kind DoAction, fn Expr, buildCall func(Builder, Expr, ...
 	case DeferInCond:
 		prog = b.Prog
 		next := self.nextBit
-		if uintptr(next) >= unsafe.Sizeof(uintptr(0))*8 {
+		if next >= prog.PointerSize()*8 { // bits is a target-sized uintptr
 			panic("too many conditional defers")
 		}
 		self.nextBit++
